@@ -63,7 +63,7 @@ func classify(f *Finding, input string, cfg Config) {
 		f.ID = "K21"
 	case f.Family == "unicode-range" && has("output-not-in-grammar"):
 		f.ID = "N15"
-	case reNewMath.MatchString(in) && (f.Family == "bgpos" || f.Family == "background") && (has("output-not-in-grammar") || has("tokens-")):
+	case reNewMath.MatchString(in) && (f.Family == "bgpos" || f.Family == "background") && (has("output-not-in-grammar") || has("tokens-") || has("position-")):
 		f.ID = "N22" // a math function as an offset of a background position (before the rules of repaired findings, whose shapes it can contain)
 	case cfg.Keep && hasExponentNumber(Tokenize(preprocess(in))) && (has("number:") || has("fusion:") || has("tokens-") || has("output-not-in-grammar") || has("zero-unit") || has("unit-changed")):
 		f.ID = "N01"
